@@ -23,6 +23,7 @@ EXPLANATION = (
     "(E2): every USE statement form (nature, ::, only, rename, operator items; all blank/case spellings, "
     "unbounded names and lists) is matched by USE_RE, and ONLY_RE accepts exactly the ONLY tails. Agreement "
     "with the standard on module graphs is not decided."
+    " Added after waves 6/7 - scope tables are read by key, never searched by entity name; USE statements inside abstract interface bodies are followed like those in interface bodies; interface bodies keep their own accessibility."
 )
 ASSUMPTIONS = ["names are [A-Za-z][A-Za-z0-9_]*"]
 
@@ -431,6 +432,14 @@ def r3_dependency_order(ctx, rep):
             rsrc |= fes.scalar(a0, fum, {}, 0, set(), at=c) if isinstance(a0, ast.Name) else {f"attr:{a0.attr}"} if isinstance(a0, ast.Attribute) else {"?"}
     routines_of = [ast.unparse(n.iter) for n in ast.walk(fum) if isinstance(n, ast.For) and ast.unparse(n.iter).endswith(".routines")]
     ok = "attr:routines" in rsrc and "attr:procedure" in rsrc and any(x != f"{fum.args.args[0].arg}.routines" for x in routines_of)
+    if not ok and rsrc:
+        # the same walk written with generators / chain(): what is read is what counts - the routines of the entity itself, the
+        # single procedure of an explicit interface and the routines of a generic one
+        p0 = fum.args.args[0].arg
+        bases = {ast.unparse(a.value) for a in ast.walk(fum) if isinstance(a, ast.Attribute) and a.attr == "routines"}
+        reads_proc = any(isinstance(a, ast.Attribute) and a.attr == "procedure" and ast.unparse(a.value) != p0 for a in ast.walk(fum))
+        ok = p0 in bases and len(bases - {p0}) >= 1 and reads_proc
+        routines_of = sorted(bases)
     rep.ob("find_used_modules visits procedures and interface bodies", ok,
            "" if ok else f"recursion covers {sorted(rsrc)}; routine loops over {routines_of}: USE statements of some interface bodies are "
            f"never resolved", py.nloc(fum))
@@ -524,23 +533,30 @@ def r7_abstract_interface_bodies(ctx, rep):
         if mod not in ("fortran_project",):
             continue
         uses = any(isinstance(x, ast.Attribute) and x.attr == "uses" for x in ast.walk(fn))
-        loops = [lp for lp in ast.walk(fn) if isinstance(lp, (ast.For, ast.comprehension)) and py.enclosing_function(lp) is fn
-                 and mentions(lp.iter, "interfaces")]
-        if not uses or not loops:
-            continue
-        # only walks that recurse (directly or through the interface's procedure) - i.e. follow USE statements downwards
+        # a walk that follows USE statements downwards: reads `.uses`, iterates the `routines` of its argument and calls itself
         recursive = any(isinstance(c, ast.Call) and call_name(c).split(".")[-1] == fn.name for c in ast.walk(fn))
-        if not recursive:
+        over_routines = [lp for lp in ast.walk(fn) if isinstance(lp, (ast.For, ast.comprehension)) and mentions(lp.iter, "routines")]
+        if not (uses and recursive and over_routines):
             continue
         n += 1
-        also = any(isinstance(lp, (ast.For, ast.comprehension)) and mentions(lp.iter, "absinterfaces") for lp in ast.walk(fn))
-        rep.ob(f"{py.qualname(fn)}: the walk over interface bodies covers abstract interfaces", also,
-               "interfaces and absinterfaces are both followed" if also else
-               f"`for ... in {ast.unparse(loops[0].iter)[:50]}` follows the USE statements of interface bodies, `absinterfaces` is not "
-               f"walked: `abstract interface; subroutine cb(x); use types_mod, only: t; type(t) :: x` leaves `t` unresolved",
-               py.nloc(loops[0] if isinstance(loops[0], ast.For) else fn))
+        walks = {what: any(isinstance(lp, (ast.For, ast.comprehension)) and mentions(lp.iter, what) for lp in ast.walk(fn))
+                 for what in ("interfaces", "absinterfaces")}
+        also = all(walks.values())
+        missing = [k for k, v in walks.items() if not v]
+        rep.ob(f"{py.qualname(fn)}: the walk over procedures covers interface bodies of both kinds", also,
+               "routines, interfaces and absinterfaces are all followed" if also else
+               f"the walk follows the USE statements of `routines` but not of the bodies in {missing}: `abstract interface; subroutine "
+               f"cb(x); use types_mod, only: t; type(t) :: x` leaves `t` unresolved / a module used only inside an interface body is "
+               f"missing from the dependency order", py.nloc(over_routines[0] if isinstance(over_routines[0], ast.For) else fn))
     if n < 2:
         raise AnalysisError(f"only {n} recursive walks over interface bodies found")
+
+
+def r8_interface_bodies_accessibility(ctx, rep):
+    """what a module exports is decided by the accessibility of its entities; a specific procedure declared by an interface
+    body inside a *generic* interface has its own accessibility, not the generic's (shared with C04.R5)"""
+    from . import c04
+    c04.r5_interface_and_constructor(ctx, rep)
 
 
 RULES = [
@@ -551,4 +567,5 @@ RULES = [
     RuleSpec("C06.R5", r5_externalised_tables, "renamed re-exports survive externalisation (shared with C16.R2)", floor=2),
     RuleSpec("C06.R6", r6_tables_read_by_key, "imported entities are looked up under their local name (shared with C07.R10)", floor=1),
     RuleSpec("C06.R7", r7_abstract_interface_bodies, "USE statements in abstract interface bodies are followed like those in interface bodies", floor=2),
+    RuleSpec("C06.R8", r8_interface_bodies_accessibility, "interface bodies keep their own accessibility (shared with C04.R5)", floor=2),
 ]
